@@ -45,6 +45,35 @@ fn bases() -> Vec<BaseCase> {
         sign_v4_header(&mut r, SK, &scope, DATE, &sha256_hex(&body), &["content-length", "content-md5"]);
         v.push(BaseCase { kind: "buffered-xml", req: r, body, first_line: 0, cuts_from: 0 });
     }
+    // (1b) the same streamed upload with a signed payload digest (the signature check reads the whole body first)
+    {
+        let body = b"0123456789abcdef".to_vec();
+        let mut r = Req::new("PUT", "/bkt/plain").header("host", HOST).header("content-length", "16");
+        sign_v4_header(&mut r, SK, &scope, DATE, &sha256_hex(&body), &["content-length"]);
+        v.push(BaseCase { kind: "digest-signed-put", req: r, body, first_line: 0, cuts_from: 0 });
+    }
+    // (2b, 2c, 2d) a buffered XML document under the schemes that do not hash the payload: unsigned payload, presigned URL,
+    // and chunk-signed (the operation buffers the decoded stream)
+    {
+        let body = br#"<Tagging xmlns="http://s3.amazonaws.com/doc/2006-03-01/"><TagSet><Tag><Key>a&amp;b</Key><Value>c d</Value></Tag><Tag><Key>k2</Key><Value></Value></Tag></TagSet></Tagging>"#.to_vec();
+        {
+            let mut r = Req::new("PUT", "/bkt/k?tagging").header("host", HOST).header("content-length", &body.len().to_string());
+            sign_v4_header(&mut r, SK, &scope, DATE, "UNSIGNED-PAYLOAD", &["content-length"]);
+            v.push(BaseCase { kind: "buffered-xml/unsigned-payload", req: r, body: body.clone(), first_line: 0, cuts_from: 0 });
+        }
+        {
+            let mut r = Req::new("PUT", "/bkt/k?tagging").header("host", HOST).header("content-length", &body.len().to_string());
+            presign_v4(&mut r, SK, &scope, DATE, "3600", &["host"]);
+            v.push(BaseCase { kind: "buffered-xml/presigned", req: r, body: body.clone(), first_line: 0, cuts_from: 0 });
+        }
+        {
+            let mut r = Req::new("PUT", "/bkt/k?tagging").header("host", HOST).header("content-encoding", "aws-chunked").header("x-amz-decoded-content-length", &body.len().to_string());
+            let seed = sign_v4_header(&mut r, SK, &scope, DATE, "STREAMING-AWS4-HMAC-SHA256-PAYLOAD", &["content-encoding", "x-amz-decoded-content-length"]);
+            let wire: Vec<u8> = encode_chunks(SK, &scope, DATE, &seed, &[body[..40].to_vec(), body[40..].to_vec()]).iter().flat_map(|c| c.bytes()).collect();
+            r.set_header("content-length", &wire.len().to_string());
+            v.push(BaseCase { kind: "buffered-xml/chunk-signed", req: r, body: wire, first_line: 0, cuts_from: 0 });
+        }
+    }
     // (3) chunk-signed upload, 3 data chunks + final
     {
         let pieces = vec![b"chunk-one\r\n".to_vec(), b"2".to_vec(), b"third;chunk-signature=".to_vec()];
@@ -208,6 +237,8 @@ fn outcome_key(out: &CallOutcome, log: &Log) -> String {
 }
 
 fn run_one(b: &BaseCase, steps: Vec<Step>) -> (String, bool) {
+    // (the presigned base is valid around its signing time)
+    crate::props::c06::set_clock_ms((crate::sigref::amz_date_to_epoch(DATE).unwrap() + 60) * 1000);
     let cfg = SvcCfg::with_auth();
     let (svc, log) = cfg.build();
     let out = call(&svc, &b.req, body_from_steps(steps));
@@ -228,6 +259,10 @@ pub fn run(ctx: &Ctx) -> (Acc, Report) {
         if hang0 {
             acc.fail(&format!("C09/{}/default-schedule-hangs", b.kind), 0, format!("{}/default", b.kind), "the default schedule never completes".into(), json!({}));
             continue;
+        }
+        // self-check of the harness: every base request is an honest one - delivered to the backend and answered 2xx
+        if !want.starts_with("200|") && !want.starts_with("204|") {
+            machinery_failure(&format!("C09: base request {} is not an honest request: {}", b.kind, want.chars().take(120).collect::<String>()));
         }
         // self-check: the default schedule executed twice observes the same thing
         let (again, _) = run_one(b, Schedule { cuts: vec![], ins: vec![] }.steps(&b.body));
@@ -291,7 +326,7 @@ pub fn run(ctx: &Ctx) -> (Acc, Report) {
     let states = acc.evals;
     let rep = Report {
         level: "model_checking",
-        rule: format!("4 request kinds (plain streamed PUT 16 B, buffered XML, chunk-signed upload, POST form with CR/LF runs and delimiter prefixes in the file) + 8 variants of the form whose file ends in CR/LF shapes (cut points from the file part on); every transport schedule with at most {k} deviations from the default (deviation = a cut point of the body, an empty frame, or a Pending-then-wake inserted before any frame or before end-of-stream), plus the all-1-byte partition with and without Pending everywhere and every uniform partition into frames of 2..96 bytes; each schedule is one complete execution of the real S3Service::call, compared with the default schedule. Distinct by schedule id."),
+        rule: format!("8 request kinds (streamed PUT 16 B with unsigned and with digest-signed payload, buffered XML with digest-signed / unsigned / presigned / chunk-signed payload, chunk-signed upload, POST form with CR/LF runs and delimiter prefixes in the file) + 8 variants of the form whose file ends in CR/LF shapes (cut points from the file part on); every transport schedule with at most {k} deviations from the default (deviation = a cut point of the body, an empty frame, or a Pending-then-wake inserted before any frame or before end-of-stream), plus the all-1-byte partition with and without Pending everywhere and every uniform partition into frames of 2..96 bytes; each schedule is one complete execution of the real S3Service::call, compared with the default schedule. Distinct by schedule id."),
         exhaustive: true,
         extra: json!({
             "states": states, "transitions": transitions.max(1), "traces_validated_against_impl": states,
